@@ -51,7 +51,16 @@ def units(tier):
     names = list(CXX_INTS)
     pairs = quick_pairs() if tier == 'quick' else [(a, b) for a in names for b in names]
     insts = [pair_inst(a, b, tier) for a, b in pairs]
-    return [Unit('C06_fundamental', insts)]
+    # "passing an argument of the parameter's own type, returning results": the invocation glue of C11 for signatures whose
+    # long / unsigned long parameters and results narrow to 32 bits under the vsbx ABI (plain, tainted and opaque argument forms)
+    from . import C11
+    ginsts = []
+    for p, r in [(['long_plain'], 'int'), (['ulong_tainted', 'long_plain', 'ptr_tainted'], 'void'), (['long_opaque'], 'long')]:
+        it = C11.invoke_inst(p, r, tier)
+        it.name = it.name.replace('c11_', 'c06_')
+        it.prop = PROP
+        ginsts.append(it)
+    return [Unit('C06_fundamental', insts), Unit('C06_call_arguments', ginsts)]
 
 
 ASSUMPTIONS = [
@@ -61,5 +70,5 @@ ASSUMPTIONS = [
 
 MANIFEST = {
     'level_text': 'For every ordered pair of the 15 integer types (225 instantiations; quick tier: 28 covering every signedness/width branch and its boundaries) the instantiated body of convert_type_fundamental is proved, over all source values at full width, to either leave exactly the source value in the destination (128-bit comparison) or abort, and not to abort when the value is representable. Loop-free code over full-domain symbolic inputs: complete, no bound.',
-    'level_note': 'Assumes: the volatile source is stable during one call; dynamic_check is a contract leaf (abort/throw do not return); clang AST dump and the AST->C lowerings listed in evidence; array/element-wise and public-route (tainted_volatile load/store) callers are covered under C07. Known finding KF-C06-bool-dest-same-width (bool destination from an 8-bit source).',
+    'level_note': 'Assumes: the volatile source is stable during one call; dynamic_check is a contract leaf (abort/throw do not return); clang AST dump and the AST->C lowerings listed in evidence; array/element-wise and public-route (tainted_volatile load/store) callers are covered under C07; arguments and results of calls go through the invocation glue instances shared with C11. Known finding KF-C06-bool-dest-same-width (bool destination from an 8-bit source).',
 }
